@@ -408,7 +408,7 @@ def _loop_scenarios(tier: str) -> list[Any]:
                 return []
             out = []
             kinds_of_edit = ('spec', 'label', 'annotate') + (('status',) if self.params.get('status_watched') else ())
-            essential = [(t, p['name']) for t, k, p in env.obs if k == 'user' and p['name'].startswith(kinds_of_edit)]
+            essential = [(t, p['name']) for t, k, p in env.obs if k == 'user' and p['name'].split('-')[0] in kinds_of_edit]   # 'statusset' edits ANOTHER status field
             calls = [(t, p['id'], p.get('reason')) for t, k, p in env.obs if k == 'call' and p.get('reason') in ('create', 'update')
                      and p['id'] in ('c1', 'u1') and p['outcome'].split(',')[0].split('~')[0] in ('ok', 'perm')]
             want = [('c1', 'create')] + [('u1', 'update')] * len(essential)
@@ -486,6 +486,16 @@ def _loop_scenarios(tier: str) -> list[Any]:
                 handlers = [dict(id='c1', on='create', script=['ok']), dict(id='u1', on='update', script=u1),
                             dict(id='fst', on='update', field='status', script=['ok'])]
                 out.append(C04Loop(handlers=handlers, user=user, horizon=6.0 + 12 * len(ed) + 30, bare=False, storage='status', sub=sub, narrowed=True,
+                                   status_watched=True, settings={'persistence__consistency_timeout': 5.0}, delays=False, early_user=False, time_dev=False))
+    # multi-location storages (annotations + status, both orders) and a handler narrowed to ONE field of the status stanza: that field is
+    # part of the essence (its edits are changes, for every update handler), the rest of the stanza and the framework's records there are not
+    for storage in ('multi', 'multi-sa', 'annotations', 'status'):
+        for u1 in (['ok'], ['temp', 'ok']):
+            for ed in ([('status', 'a', 1)], [('status', 'a', 1), ('statusset', 'a', 'other', 5), ('status', 'a', 2)], [('spec', 'a', 2), ('status', 'a', 1)]):
+                user = [(1.0, 'create', 'a')] + [(6.0 + 12 * i, *a) for i, a in enumerate(ed)]
+                handlers = [dict(id='c1', on='create', script=['ok']), dict(id='u1', on='update', script=u1),
+                            dict(id='fsf', on='update', field='status.foreign', script=['ok'])]
+                out.append(C04Loop(handlers=handlers, user=user, horizon=6.0 + 12 * len(ed) + 30, bare=False, storage=storage, sub=False, narrowed=True,
                                    status_watched=True, settings={'persistence__consistency_timeout': 5.0}, delays=False, early_user=False, time_dev=False))
     return out
 
